@@ -319,44 +319,57 @@ func TestVerifC19Balloons(t *testing.T) {
 		} else if !w.Mine(i) {
 			continue
 		}
-		var x *exec
-		var err error
-		pan, msg, where := mc.Guard(func() { x, err = newExec(cs.s, scratchDir()) })
-		if pan || err != nil {
-			w.Report(mc.Violation{Property: "C19", Oracle: "setup", Signature: "setup-fails", Scenario: cs.s.name, Detail: fmt.Sprint(msg, where, err)})
-			continue
-		}
-		x.evIndex = -1
-		x.step("run:p0")
-		rp := x.step("create:c0")
-		w.Res.Evaluations++
-		if rp.panic != "" {
-			w.Report(mc.Violation{Property: "C14", Oracle: "panic", Signature: "panic@" + rp.where + ":create", Scenario: cs.s.name, Trace: []string{"run:p0", "create:c0"}, Detail: rp.panic})
-			continue
-		}
-		post := x.snapshot()
-		got := x.balloonDefOf(x.w.ctrs[0], post)
-		if rp.err != nil {
-			got = "<error>"
-		}
-		// the public observable: the zone the container sub-zone hangs under
-		zoneDef := ""
-		for _, z := range post.Zones {
-			if z.Type == "allocation for container" && strings.HasSuffix(z.Name, "/"+x.w.ctrs[0].spec.name) {
-				zoneDef = strings.Split(z.Parent, "[")[0]
+		// every case twice: on the configuration as applied at start, and after an update that validation refuses and that
+		// carries other type names - the configuration in force, and with it the selection, must be the same
+		for _, pre := range []string{"", ":after-refused-update"} {
+			var x *exec
+			var err error
+			pan, msg, where := mc.Guard(func() { x, err = newExec(cs.s, scratchDir()) })
+			if pan || err != nil {
+				w.Report(mc.Violation{Property: "C19", Oracle: "setup", Signature: "setup-fails", Scenario: cs.s.name, Detail: fmt.Sprint(msg, where, err)})
+				continue
 			}
-		}
-		outcomes[got] = true
-		w.Res.Nontrivial++
-		if got != cs.want {
-			w.Report(mc.Violation{Property: "C19", Oracle: "balloon-type-selection", Signature: "balloon-type-selection:" + cs.kind, Scenario: cs.s.name, Trace: []string{"run:p0", "create:c0"},
-				Detail: fmt.Sprintf("container kind %q with types in order %v lands in %q, expected %q (error: %v)", cs.kind, cs.order, got, cs.want, rp.err)})
-		} else if rp.err == nil && zoneDef != got {
-			w.Report(mc.Violation{Property: "C19", Oracle: "zone-differs-from-membership", Signature: "zone-differs-from-membership", Scenario: cs.s.name, Trace: []string{"run:p0", "create:c0"},
-				Detail: fmt.Sprintf("container is a member of a %q balloon but its topology sub-zone hangs under %q", got, zoneDef)})
-		}
-		if i%17 == 0 {
-			w.Sample(map[string]any{"types": cs.order, "container": cs.kind, "balloon_type": got})
+			x.evIndex = -1
+			if pre != "" {
+				bad := blCfg("refused", []*blDef{{Name: "byns", MinCpus: 3, MaxCpus: 2}, {Name: "zz-only-in-refused", MinCpus: 1}}).build()
+				var rerr error
+				mc.Guard(func() { rerr = x.in.m.reconfigure(bad) })
+				if rerr == nil {
+					w.Report(mc.Violation{Property: "C19", Oracle: "harness", Signature: "refused-update-accepted", Scenario: cs.s.name, Detail: "the update with minCPUs > maxCPUs was accepted"})
+					continue
+				}
+			}
+			x.step("run:p0")
+			rp := x.step("create:c0")
+			w.Res.Evaluations++
+			if rp.panic != "" {
+				w.Report(mc.Violation{Property: "C14", Oracle: "panic", Signature: "panic@" + rp.where + ":create", Scenario: cs.s.name, Trace: []string{"run:p0", "create:c0"}, Detail: rp.panic})
+				continue
+			}
+			post := x.snapshot()
+			got := x.balloonDefOf(x.w.ctrs[0], post)
+			if rp.err != nil {
+				got = "<error>"
+			}
+			// the public observable: the zone the container sub-zone hangs under
+			zoneDef := ""
+			for _, z := range post.Zones {
+				if z.Type == "allocation for container" && strings.HasSuffix(z.Name, "/"+x.w.ctrs[0].spec.name) {
+					zoneDef = strings.Split(z.Parent, "[")[0]
+				}
+			}
+			outcomes[got] = true
+			w.Res.Nontrivial++
+			if got != cs.want {
+				w.Report(mc.Violation{Property: "C19", Oracle: "balloon-type-selection", Signature: "balloon-type-selection:" + cs.kind + pre, Scenario: cs.s.name, Trace: []string{"run:p0", "create:c0"},
+					Detail: fmt.Sprintf("container kind %q with types in order %v lands in %q, expected %q (error: %v)", cs.kind, cs.order, got, cs.want, rp.err)})
+			} else if rp.err == nil && zoneDef != got {
+				w.Report(mc.Violation{Property: "C19", Oracle: "zone-differs-from-membership", Signature: "zone-differs-from-membership", Scenario: cs.s.name, Trace: []string{"run:p0", "create:c0"},
+					Detail: fmt.Sprintf("container is a member of a %q balloon but its topology sub-zone hangs under %q", got, zoneDef)})
+			}
+			if i%17 == 0 && pre == "" {
+				w.Sample(map[string]any{"types": cs.order, "container": cs.kind, "balloon_type": got})
+			}
 		}
 	}
 	w.Res.Outcomes = int64(len(outcomes))
